@@ -64,7 +64,7 @@ def run(ctx):
               "_auto_select_init: exhaustive for n_features, n_samples, n_components, n_classes <= 6. initialisers: "
               "identity / covariance (Penrose equations against the exact covariance of the distinct points) / random "
               "(reproducible, SPD by exact LDL^T) / array (shape, symmetry, PSD, strict-PD checks) and transformation inits.")
-  ctx.trusted = ["Coq 8.16.1 kernel + vm_compute", "hand-written model Model/PSDConv.v tied by this correspondence",
+  ctx.trusted = ["translator tools/translate_psd.py + tools/pynum.py / Base/NPNum.v (_check_sdp_from_eigen, branches of components_from_metric), text pins (initialisers)", "Coq 8.16.1 kernel + vm_compute", "hand-written model Model/PSDConv.v tied by this correspondence",
                  "oracles: numpy eigh / cholesky, scipy pinvh, sklearn make_spd_matrix / PCA / LDA (outputs certified per run)",
                  "exact LDL^T positive-definiteness certificate: sound by Proofs/Hom.cert_pd_sound (Q2R homomorphism + sum-of-squares)"]
   ok = ctx.build_property(gen_needed=['Src_psd'])
